@@ -4,11 +4,14 @@
   The model (Model/Env.lean) is tied to /repo by
     * `C01_fsm_is_code`: its transition table is the table obtained on this run by
       firing every event in every state on a real Environment (Gen/EnvFsm.lean);
+    * `C01_glue_is_code`: the condition under which `controlApi` forces ERROR is the one
+      written in RpcServer.ControlEnvironment (go/ast, Gen/EnvGlue.lean);
     * the correspondence run (harness/envh): real Environment, real fsm, real
       TryTransition / TeardownEnvironment, compared step by step by the trace monitor.
 -/
 import ControlModel.Gen.EnvFsm
 import ControlModel.Gen.EnvLocks
+import ControlModel.Gen.EnvGlue
 import ControlModel.Gen.FailureFacts
 import ControlModel.Proofs.Env
 import ControlModel.Proofs.EnvConc
@@ -55,16 +58,25 @@ theorem try_edge (hooks : List Hook) (env : Env) (e : Ev) (b r : Bool)
   · obtain ⟨h1, h2, _⟩ := api_edge e env.st d he hd
     refine hst ▸ ?_; exact ⟨h1, fun hD => absurd (hst.symm.trans hD) h2⟩
 
+theorem try_notDone (hooks : List Hook) (env : Env) (e : Ev) (b r : Bool)
+    (he : e.isApi = true ∨ e = .GO_ERROR) (hnd : env.st ≠ .DONE) : (tryTransition env hooks e b r).1.st ≠ .DONE := by
+  unfold tryTransition
+  obtain ⟨_, h | ⟨d, hd, hst, _⟩⟩ := fsmEvent_st env hooks e b r
+  · rw [h.1]; exact hnd
+  · rw [hst]; exact (api_edge e env.st d he hd).2.1
+
 theorem control_edge (hooks : List Hook) (env : Env) (e : Ev) (b r : Bool)
     (he : e.isApi = true) (hinv : DoneIsGone env) (hng : env.gone = false) :
     docEdge env.st (controlApi env hooks e b r).1.st = true ∧ DoneIsGone (controlApi env hooks e b r).1 ∧
     ((controlApi env hooks e b r).2.2.isOk = false → (controlApi env hooks e b r).1.st = .ERROR) := by
   have hnd : env.st ≠ .DONE := fun h => by have := hinv h; simp [hng] at this
-  rcases controlApi_cases hooks env e b r with ⟨hok, heq⟩ | ⟨hnok, hE, hg, _⟩
+  rcases controlApi_cases hooks env e b r with ⟨hok, heq⟩ | ⟨hnok, hE, hg, _⟩ | ⟨_, _, hD, _, _⟩
   · have := try_edge hooks env e b r (Or.inl he) hinv
     rw [heq]; exact ⟨this.1, this.2, fun h => by rw [heq] at hok; simp [hok] at h⟩
   · refine ⟨?_, (by intro hD; rw [hE] at hD; cases hD), fun _ => hE⟩
     rw [hE]; revert hnd; cases env.st <;> simp [docEdge, St.live]
+  · -- the glue spares DONE only: an API event never takes a live environment there
+    exact absurd hD (try_notDone hooks env e b r (Or.inl he) hnd)
 
 /-- One in-scope request moves the reported state along a documented edge (or not at
     all) and keeps "DONE ⇒ unlisted". -/
@@ -165,8 +177,9 @@ theorem C01_illegal_api (hooks : List Hook) (env : Env) (e : Ev) (b r : Bool) (h
     ((controlApi env hooks e b r).2.1 = gs ∨ (controlApi env hooks e b r).2.1 = gs ++ [Step.setState .ERROR]) := by
   have hE := (control_edge hooks env e b r he hinv hng).2.2
   have hres : (controlApi env hooks e b r).2.2 = .illegal := by
-    rcases controlApi_cases hooks env e b r with ⟨_, heq⟩ | ⟨_, _, _, hr⟩
+    rcases controlApi_cases hooks env e b r with ⟨_, heq⟩ | ⟨_, _, _, hr⟩ | ⟨_, _, _, _, hr⟩
     · rw [heq, C01_illegal_inert hooks env e b r h]
+    · rw [hr, C01_illegal_inert hooks env e b r h]
     · rw [hr, C01_illegal_inert hooks env e b r h]
   refine ⟨hres, hE (by rw [hres]; rfl), ?_⟩
   unfold controlApi
@@ -182,6 +195,17 @@ theorem C01_failed_goes_error (hooks : List Hook) (env : Env) (e : Ev) (b r : Bo
     (hfail : (controlApi env hooks e b r).2.2.isOk = false) :
     (controlApi env hooks e b r).1.st = .ERROR :=
   (control_edge hooks env e b r he hinv hng).2.2 hfail
+
+/-- The ControlEnvironment glue of the model is the one in core/server.go (go/ast on every run): the
+    state is forced — `env.Sm.SetState("ERROR")` — in exactly one statement, guarded by
+    `goErr != nil && env.CurrentState() != "DONE"` where `goErr` is the result of the GO_ERROR fallback:
+    `controlApi` forces ERROR iff that fallback was refused and the state is not DONE (the states spared
+    are exactly [DONE]). Without the repair "ControlEnvironment does not force ERROR on an environment
+    that is DONE" the condition is `goErr != nil` (`controlApiLegacy`) and this theorem is false. -/
+theorem C01_glue_is_code :
+    Gen.glueRecognised = true ∧ Gen.glueSpares = [St.DONE.name] ∧
+    Gen.glueInit = "goErr := env.TryTransition(environment.NewGoErrorTransition(m.state.taskman))" ∧
+    Gen.glueCond = "goErr != nil && env.CurrentState() != \"DONE\"" := by decide
 
 /-- Non-vacuity: a concrete walk with a critical hook that fails once, through the API. -/
 example :
@@ -249,54 +273,94 @@ example :
     s.log.map (fun x => (x.caller, x.before.st, x.after.st)) =
       [(0, .STANDBY, .DEPLOYED), (1, .DEPLOYED, .CONFIGURED), (2, .CONFIGURED, .CONFIGURED)] := by decide
 
+/-- What the repair does NOT close (all schedules are covered by the three theorems above, which say
+    nothing about the graph): the glue's read of the state and its write of ERROR are two unlocked
+    moves. Caller 0's request and its GO_ERROR fallback are both vetoed by a critical leave_STANDBY hook,
+    its check reads STANDBY; caller 1's teardown runs to DONE; caller 0 then writes ERROR over DONE. The
+    window is between two adjacent statements of ControlEnvironment (no hook point, not reachable by the
+    harness); the overlap the finding was about — the request waiting for the mutex — is closed
+    (`C01_graph_par_code`). -/
+example :
+    let hooks : List Hook := [{ id := 0, isTask := false, critical := true, trig := .leave .STANDBY, tw := 0,
+                                await := .leave .STANDBY, aw := 0, outcomes := [true, true, true] }]
+    let s := runSched hooks 1 (initSys {} [.control .DEPLOY true false, .teardown true true true]) [0, 0, 0, 0, 0, 0, 1, 1, 1, 0]
+    s.log.map (fun x => (x.caller, x.before.st, x.after.st)) =
+      [(0, .STANDBY, .STANDBY), (0, .STANDBY, .STANDBY), (1, .STANDBY, .DONE), (0, .DONE, .ERROR)] := by decide
+
 /-! ### overlapping requests as the harness issues them (`PReq.par`) -/
 
 /-- States reported after each request of a list with overlapping pairs, in mutex order. -/
 def reportedPar (hooks : List Hook) (n : Nat) (env : Env) (qs : List PReq) : List St :=
   (runPar hooks n env qs).map (·.2.2.st)
 
+/-- The same with the ControlEnvironment glue as it was before the repair (`controlApiLegacy`). -/
+def reportedParLegacy (hooks : List Hook) (n : Nat) (env : Env) (qs : List PReq) : List St :=
+  (runParLegacy hooks n env qs).map (·.2.2.st)
+
 def PReq.inScope : PReq → Bool
   | .one q => q.inScope
   | .par a b => a.inScope && b.inScope
 
-/-- The excluded pairs: an API control request that arrives while a teardown is in progress. -/
+/-- The pairs that finding control_overlaps_teardown was about: an API control request that arrives
+    while a teardown is in progress. -/
 def PReq.noControlOverTeardown : PReq → Bool
   | .par (.teardown ..) (.control ..) => false
   | _ => true
 
-/-- The graph clause at full strength for overlapping requests. -/
-def C01_graph_par_full : Prop :=
+/-- The graph clause at full strength for overlapping requests, for a given way `rep` of running a
+    list: EVERY hook set, EVERY list of in-scope requests and overlapping pairs. -/
+def C01_graph_par_full_of (rep : List Hook → Nat → Env → List PReq → List St) : Prop :=
   ∀ (hooks : List Hook) (n : Nat) (qs : List PReq), qs.all PReq.inScope = true →
-    chainOk .STANDBY (reportedPar hooks n {} qs) = true
+    chainOk .STANDBY (rep hooks n {} qs) = true
 
-/-- **Finding control_overlaps_teardown**: a ControlEnvironment request that looked the
-    environment up while a teardown was in progress gets the mutex after it, is refused (the
-    event is illegal in DONE), the GO_ERROR fallback is refused too, and the glue then forces
-    the state: the reply reports ERROR for an environment that is DONE and unlisted —
-    DONE → ERROR is not an edge of the documented graph. -/
-theorem C01_finding_control_overlaps_teardown : ¬ C01_graph_par_full := by
+/-- … for the code as it is. Proved: `C01_graph_par_code`. -/
+def C01_graph_par_full : Prop := C01_graph_par_full_of reportedPar
+
+/-- **Finding control_overlaps_teardown** (repaired by "fix: ControlEnvironment does not force ERROR on
+    an environment that is DONE"; a statement about the glue AS IT WAS, `controlApiLegacy`): a
+    ControlEnvironment request that looked the environment up while a teardown was in progress gets the
+    mutex after it, is refused (the event is illegal in DONE), the GO_ERROR fallback is refused too, and
+    the glue then forced the state: the reply reported ERROR for an environment that is DONE and
+    unlisted — DONE → ERROR is not an edge of the documented graph. -/
+theorem C01_finding_control_overlaps_teardown : ¬ C01_graph_par_full_of reportedParLegacy := by
   intro h
   have := h [] 1 [.par (.teardown true true true) (.control .DEPLOY true false)] (by decide)
   revert this
   decide
 
-theorem try_notDone (hooks : List Hook) (env : Env) (e : Ev) (b r : Bool)
-    (he : e.isApi = true ∨ e = .GO_ERROR) (hnd : env.st ≠ .DONE) : (tryTransition env hooks e b r).1.st ≠ .DONE := by
-  unfold tryTransition
-  obtain ⟨_, h | ⟨d, hd, hst, _⟩⟩ := fsmEvent_st env hooks e b r
-  · rw [h.1]; exact hnd
-  · rw [hst]; exact (api_edge e env.st d he hd).2.1
+/-- The same pair with the code as it is: the held control request is refused and the reported state
+    stays DONE. -/
+example : reportedPar [] 1 {} [.par (.teardown true true true) (.control .DEPLOY true false)] = [.DONE, .DONE] ∧
+    (runPar [] 1 {} [.par (.teardown true true true) (.control .DEPLOY true false)]).map (·.2.1) = [.ok, .illegal] := by
+  decide
+
+theorem dst_done (e : Ev) : dst? e .DONE = none := by cases e <;> rfl
+
+theorem docEdge_done (s : St) (h : docEdge .DONE s = true) : s = .DONE := by
+  revert h; cases s <;> simp [docEdge, St.live, Ev.all, Ev.isApi, dst?]
+
+/-- **The glue leaves a finished environment alone**: a request that reaches the ControlEnvironment
+    glue while the environment is DONE — it looked the environment up while a teardown was in
+    progress — is refused as illegal and executes NOTHING: no hook, no body, no GO_ERROR callback, no
+    forced state; the environment is exactly what the teardown left. For every event. -/
+theorem C01_control_on_done_inert (hooks : List Hook) (env : Env) (e : Ev) (b r : Bool) (hd : env.st = .DONE) :
+    controlApi env hooks e b r = (env, [], .illegal) := by
+  have h1 := C01_illegal_inert hooks env e b r (by rw [hd]; exact dst_done e)
+  have h2 := C01_illegal_inert hooks env .GO_ERROR true false (by rw [hd]; exact dst_done _)
+  unfold controlApi
+  simp [h1, h2, Result.isOk, hd]
 
 /-- `control_edge` only needs the environment not to be DONE. -/
 theorem control_edge_live (hooks : List Hook) (env : Env) (e : Ev) (b r : Bool)
     (he : e.isApi = true) (hinv : DoneIsGone env) (hnd : env.st ≠ .DONE) :
     docEdge env.st (controlApi env hooks e b r).1.st = true ∧ DoneIsGone (controlApi env hooks e b r).1 ∧
     (controlApi env hooks e b r).1.st ≠ .DONE := by
-  rcases controlApi_cases hooks env e b r with ⟨hok, heq⟩ | ⟨hnok, hE, hg, _⟩
+  rcases controlApi_cases hooks env e b r with ⟨hok, heq⟩ | ⟨hnok, hE, hg, _⟩ | ⟨_, _, hD, _, _⟩
   · have := try_edge hooks env e b r (Or.inl he) hinv
     rw [heq]; exact ⟨this.1, this.2, try_notDone hooks env e b r (Or.inl he) hnd⟩
   · refine ⟨?_, (by intro hD; rw [hE] at hD; cases hD), by rw [hE]; simp⟩
     rw [hE]; revert hnd; cases env.st <;> simp [docEdge, St.live]
+  · exact absurd hD (try_notDone hooks env e b r (Or.inl he) hnd)
 
 /-- One request that is not a teardown keeps a not-DONE environment not DONE. -/
 theorem step_notDone (hooks : List Hook) (n : Nat) (env : Env) (q : Req) (hq : q.inScope = true)
@@ -313,11 +377,11 @@ theorem step_notDone (hooks : List Hook) (n : Nat) (env : Env) (q : Req) (hq : q
     · exact (control_edge_live hooks env e b r hq hinv hnd).2.2
   | teardown f a b => exact absurd rfl (hnt f a b)
 
-/-- A held request (its look-up saw `listed`) moves the reported state along a documented
-    edge and keeps "DONE ⇒ unlisted", provided it is not an API control request finding DONE. -/
+/-- A held request (its look-up saw `listed`) moves the reported state along a documented edge (or not
+    at all) and keeps "DONE ⇒ unlisted" — whatever it finds when it gets the mutex, a DONE environment
+    included. -/
 theorem stepHeld_edge (hooks : List Hook) (n : Nat) (listed : Bool) (env : Env) (q : Req)
-    (hq : q.inScope = true) (hinv : DoneIsGone env)
-    (hc : ∀ e b r, q = .control e b r → listed = true → env.st ≠ .DONE) :
+    (hq : q.inScope = true) (hinv : DoneIsGone env) :
     docEdge env.st (stepHeld hooks n listed env q).1.st = true ∧ DoneIsGone (stepHeld hooks n listed env q).1 := by
   cases q with
   | try_ e b r =>
@@ -327,9 +391,10 @@ theorem stepHeld_edge (hooks : List Hook) (n : Nat) (listed : Bool) (env : Env) 
     simp only [stepHeld]
     split
     · exact ⟨docEdge_refl _, hinv⟩
-    · rename_i hl
-      have := control_edge_live hooks env e b r hq hinv (hc e b r rfl (by simpa using hl))
-      exact ⟨this.1, this.2.1⟩
+    · by_cases hd : env.st = .DONE
+      · rw [C01_control_on_done_inert hooks env e b r hd]; exact ⟨docEdge_refl _, hinv⟩
+      · have := control_edge_live hooks env e b r hq hinv hd
+        exact ⟨this.1, this.2.1⟩
   | teardown f r1 r2 =>
     simp only [stepHeld]
     split
@@ -339,37 +404,148 @@ theorem stepHeld_edge (hooks : List Hook) (n : Nat) (listed : Bool) (env : Env) 
       · rw [h1]; exact ⟨by revert hnd; cases env.st <;> simp [docEdge], fun _ => h2⟩
 
 /-- **The graph clause for overlapping requests**: for EVERY hook set and EVERY list of in-scope
-    requests and overlapping pairs — the second of a pair having looked the environment up
-    before the first finished — consecutive reported states are joined by documented edges,
-    provided no API control request overlaps a teardown (`noControlOverTeardown`; excluded by
-    finding control_overlaps_teardown). -/
+    requests and overlapping pairs — the second of a pair having looked the environment up before the
+    first finished — consecutive reported states are joined by documented edges. No pair is excluded. -/
+theorem C01_graph_par (hooks : List Hook) (n : Nat) (qs : List PReq)
+    (hq : qs.all PReq.inScope = true) (env : Env) (hinv : DoneIsGone env) :
+    chainOk env.st (reportedPar hooks n env qs) = true := by
+  induction qs generalizing env with
+  | nil => rfl
+  | cons q qs ih =>
+    simp only [List.all_cons, Bool.and_eq_true] at hq
+    cases q with
+    | one a =>
+      obtain ⟨h1, h2⟩ := C01_step_edge hooks n env a hq.1 hinv
+      simp only [reportedPar, runPar, List.map_cons, chainOk, Bool.and_eq_true]
+      exact ⟨h1, ih hq.2 _ h2⟩
+    | par a b =>
+      simp only [PReq.inScope, Bool.and_eq_true] at hq
+      obtain ⟨h1, h2⟩ := C01_step_edge hooks n env a hq.1.1 hinv
+      have hb := stepHeld_edge hooks n (!env.gone) (step hooks n env a).1 b hq.1.2 h2
+      simp only [reportedPar, runPar, List.map_cons, chainOk, Bool.and_eq_true]
+      exact ⟨h1, hb.1, ih hq.2 _ hb.2⟩
+
+/-- The full-strength statement holds for the code as it is (it was refuted for the glue as it was:
+    `C01_finding_control_overlaps_teardown`). -/
+theorem C01_graph_par_code : C01_graph_par_full :=
+  fun hooks n qs hq => C01_graph_par hooks n qs hq {} (fun h => by cases h)
+
+/-- What was provable before the repair (kept): the graph clause for lists in which no API control
+    request overlaps a teardown. Now an instance of `C01_graph_par`. -/
 theorem C01_graph_par_partial (hooks : List Hook) (n : Nat) (qs : List PReq)
+    (hq : qs.all PReq.inScope = true) (_hp : qs.all PReq.noControlOverTeardown = true)
+    (env : Env) (hinv : DoneIsGone env) :
+    chainOk env.st (reportedPar hooks n env qs) = true :=
+  C01_graph_par hooks n qs hq env hinv
+
+/-- **DONE is terminal for overlapping requests too**: once DONE has been reported, every later report
+    of a list of in-scope requests and overlapping pairs is DONE — also that of a control request that
+    was held on the mutex while the teardown ran (it is answered with an error and changes nothing). -/
+theorem C01_done_terminal_par (hooks : List Hook) (n : Nat) (qs : List PReq) (hq : qs.all PReq.inScope = true)
+    (env : Env) (hinv : DoneIsGone env) (hd : env.st = .DONE) :
+    ∀ s ∈ reportedPar hooks n env qs, s = .DONE := by
+  induction qs generalizing env with
+  | nil => intro s hs; simp [reportedPar, runPar] at hs
+  | cons q qs ih =>
+    simp only [List.all_cons, Bool.and_eq_true] at hq
+    cases q with
+    | one a =>
+      obtain ⟨h1, h2⟩ := C01_step_edge hooks n env a hq.1 hinv
+      have hst : (step hooks n env a).1.st = .DONE := docEdge_done _ (hd ▸ h1)
+      intro s hs
+      simp only [reportedPar, runPar, List.map_cons, List.mem_cons] at hs
+      rcases hs with hs | hs
+      · rw [hs]; exact hst
+      · exact ih hq.2 _ h2 hst s hs
+    | par a b =>
+      simp only [PReq.inScope, Bool.and_eq_true] at hq
+      obtain ⟨h1, h2⟩ := C01_step_edge hooks n env a hq.1.1 hinv
+      have hst : (step hooks n env a).1.st = .DONE := docEdge_done _ (hd ▸ h1)
+      have hb := stepHeld_edge hooks n (!env.gone) (step hooks n env a).1 b hq.1.2 h2
+      have hst2 : (stepHeld hooks n (!env.gone) (step hooks n env a).1 b).1.st = .DONE := docEdge_done _ (hst ▸ hb.1)
+      intro s hs
+      simp only [reportedPar, runPar, List.map_cons, List.mem_cons] at hs
+      rcases hs with hs | hs | hs
+      · rw [hs]; exact hst
+      · rw [hs]; exact hst2
+      · exact ih hq.2 _ hb.2 hst2 s hs
+
+/-- …and the walk that the finding was about, from a new environment: whatever follows a teardown
+    that went through — here a control request held on the mutex meanwhile — reports DONE. -/
+example :
+    reportedPar [] 1 {} [.one (.control .DEPLOY true false), .par (.teardown false true true) (.control .CONFIGURE true false),
+                         .one (.teardown true true true)] = [.DEPLOYED, .DONE, .DONE, .DONE] := by decide
+
+/-! ### the repair changes nothing else -/
+
+theorem stepLegacy_eq (hooks : List Hook) (n : Nat) (env : Env) (q : Req) (hq : q.inScope = true)
+    (hinv : DoneIsGone env) : stepLegacy hooks n env q = step hooks n env q := by
+  cases q with
+  | try_ e b r => rfl
+  | teardown f a b => rfl
+  | control e b r =>
+    simp only [stepLegacy, step]
+    split
+    · rfl
+    · rename_i hg
+      have hnd : env.st ≠ .DONE := fun h => hg (hinv h)
+      exact controlApiLegacy_eq hooks env e b r (try_notDone hooks env e b r (Or.inl hq) hnd)
+
+theorem stepHeldLegacy_eq (hooks : List Hook) (n : Nat) (listed : Bool) (env : Env) (q : Req) (hq : q.inScope = true)
+    (hc : ∀ e b r, q = .control e b r → listed = true → env.st ≠ .DONE) :
+    stepHeldLegacy hooks n listed env q = stepHeld hooks n listed env q := by
+  cases q with
+  | try_ e b r => rfl
+  | teardown f a b => rfl
+  | control e b r =>
+    simp only [stepHeldLegacy, stepHeld]
+    split
+    · rfl
+    · rename_i hl
+      exact controlApiLegacy_eq hooks env e b r
+        (try_notDone hooks env e b r (Or.inl hq) (hc e b r rfl (by simpa using hl)))
+
+/-- **The repair touches the overlap of a control request with a teardown and nothing else**: on every
+    list of in-scope requests and overlapping pairs in which no API control request overlaps a teardown,
+    the glue as it was and the glue as it is produce the same steps, results and environments. -/
+theorem C01_legacy_differs_only_over_teardown (hooks : List Hook) (n : Nat) (qs : List PReq)
     (hq : qs.all PReq.inScope = true) (hp : qs.all PReq.noControlOverTeardown = true)
     (env : Env) (hinv : DoneIsGone env) :
-    chainOk env.st (reportedPar hooks n env qs) = true := by
+    runParLegacy hooks n env qs = runPar hooks n env qs := by
   induction qs generalizing env with
   | nil => rfl
   | cons q qs ih =>
     simp only [List.all_cons, Bool.and_eq_true] at hq hp
     cases q with
     | one a =>
-      obtain ⟨h1, h2⟩ := C01_step_edge hooks n env a hq.1 hinv
-      simp only [reportedPar, runPar, List.map_cons, chainOk, Bool.and_eq_true]
-      exact ⟨h1, ih hq.2 hp.2 _ h2⟩
+      have h2 := (C01_step_edge hooks n env a hq.1 hinv).2
+      simp only [runParLegacy, runPar]
+      rw [stepLegacy_eq hooks n env a hq.1 hinv, ih hq.2 hp.2 _ h2]
     | par a b =>
       simp only [PReq.inScope, Bool.and_eq_true] at hq
-      obtain ⟨h1, h2⟩ := C01_step_edge hooks n env a hq.1.1 hinv
-      have hb := stepHeld_edge hooks n (!env.gone) (step hooks n env a).1 b hq.1.2 h2 (by
-        intro e x r hbc hl
-        -- listed: the environment was not gone, hence not DONE, before `a`; `a` is not a teardown
-        have hng : env.gone = false := by simpa using hl
-        have hnd : env.st ≠ .DONE := fun h => by have := hinv h; simp [hng] at this
-        apply step_notDone hooks n env a hq.1.1 hinv hnd
-        intro f r1 r2 hat
-        subst hat; subst hbc
-        simp [PReq.noControlOverTeardown] at hp)
-      simp only [reportedPar, runPar, List.map_cons, chainOk, Bool.and_eq_true]
-      exact ⟨h1, hb.1, ih hq.2 hp.2 _ hb.2⟩
+      have h2 := (C01_step_edge hooks n env a hq.1.1 hinv).2
+      have hb := stepHeld_edge hooks n (!env.gone) (step hooks n env a).1 b hq.1.2 h2
+      simp only [runParLegacy, runPar]
+      rw [stepLegacy_eq hooks n env a hq.1.1 hinv,
+        stepHeldLegacy_eq hooks n (!env.gone) (step hooks n env a).1 b hq.1.2 (by
+          intro e x r hbc hl
+          -- listed: the environment was not gone, hence not DONE, before `a`; `a` is not a teardown
+          have hng : env.gone = false := by simpa using hl
+          have hnd : env.st ≠ .DONE := fun h => by have := hinv h; simp [hng] at this
+          apply step_notDone hooks n env a hq.1.1 hinv hnd
+          intro f r1 r2 hat
+          subst hat; subst hbc
+          simp [PReq.noControlOverTeardown] at hp),
+        ih hq.2 hp.2 _ hb.2]
+
+/-- Hence what was proved of the code as it was: its graph clause under the excluded hypothesis. -/
+theorem C01_graph_par_partial_legacy (hooks : List Hook) (n : Nat) (qs : List PReq)
+    (hq : qs.all PReq.inScope = true) (hp : qs.all PReq.noControlOverTeardown = true)
+    (env : Env) (hinv : DoneIsGone env) :
+    chainOk env.st (reportedParLegacy hooks n env qs) = true := by
+  unfold reportedParLegacy
+  rw [C01_legacy_differs_only_over_teardown hooks n qs hq hp env hinv]
+  exact C01_graph_par hooks n qs hq env hinv
 
 /-- In a pair, the second request runs on exactly what the first left (and the rest of the
     list on what the second left): overlapping requests are a sequence. -/
@@ -385,4 +561,3 @@ theorem C01_par_eq_seq (hooks : List Hook) (n : Nat) (env : Env) (a b : Req)
     stepHeld hooks n (!env.gone) (step hooks n env a).1 b = step hooks n (step hooks n env a).1 b := by
   generalize hs : step hooks n env a = r at hg
   cases b <;> simp [stepHeld, step, hg]
-
